@@ -79,11 +79,6 @@ func (c *cors) configureOrigin() *cors {
 				Key:   "Access-Control-Allow-Origin",
 				Value: requestOrigin,
 			})
-		} else {
-			c.headers = append(c.headers, &Kv{
-				Key:   "Access-Control-Allow-Origin",
-				Value: "false",
-			})
 		}
 		c.varys = append(c.varys, "Origin")
 	}
